@@ -112,3 +112,44 @@ func VerifC20SparseArray() {
 	stats := calcStats([]File{{Path: "x_test.arrai", Results: results}})
 	verifAssert("holes-are-not-leaves", stats.total == 2 && stats.passed == 2 && !stats.runFailed)
 }
+
+// verif:bound VerifC20SharedPath two leaves that are reported under one path: a dictionary key carrying two values, or a tuple attribute named like a nested path ((a: (b: L1), 'a.b': L2)); leaves true/false/number
+// verif:cover VerifC20SharedPath dict-key-two-values attribute-named-like-a-path all-true some-false
+func VerifC20SharedPath() {
+	var c verifCensus
+	var tree rel.Value
+	if verifChoice(2) == 0 {
+		verifCover("dict-key-two-values")
+		l1 := verifLeaf(&c, 3)
+		l2 := verifLeaf(&c, 3)
+		if l1.Equal(l2) {
+			return // one entry, not two
+		}
+		k := rel.NewNumber(float64(verifNondetIntIn(0, 1)))
+		tree = rel.NewTuple(rel.NewAttr("cases",
+			rel.MustNewDict(true, rel.NewDictEntryTuple(k, l1), rel.NewDictEntryTuple(k, l2))))
+	} else {
+		verifCover("attribute-named-like-a-path")
+		l1 := verifLeaf(&c, 3)
+		l2 := verifLeaf(&c, 3)
+		tree = rel.NewTuple(rel.NewAttr("a", rel.NewTuple(rel.NewAttr("b", l1))), rel.NewAttr("a.b", l2))
+	}
+	var results []Result
+	var err error
+	p := verifTry(func() { results, err = RunExpr(context.Background(), tree) })
+	verifAssert("shared-path-no-panic", !p)
+	if p {
+		return
+	}
+	verifAssert("shared-path-no-error", err == nil)
+	verifAssert("shared-path-one-result-per-leaf", len(results) == c.leaves)
+	stats := calcStats([]File{{Path: "x_test.arrai", Results: results}})
+	verifAssert("shared-path-total-is-leaf-count", stats.total == c.leaves)
+	verifAssert("shared-path-passed-is-true-leaves", stats.passed == c.trues)
+	verifAssert("shared-path-run-fails-iff-some-leaf-not-true", stats.runFailed == (c.trues != c.leaves))
+	if c.trues == c.leaves {
+		verifCover("all-true")
+	} else {
+		verifCover("some-false")
+	}
+}
